@@ -1,13 +1,16 @@
 """C05 - CTC prefix search reports true prefix mass, never more, never NaN.
 
-The two functions (ctc_prefix_search_advance, CTCPrefixSearch.forward) are ~300 lines of data-dependent
-gather/scatter and are outside the deductive engine's reach (DESIGN.md section 3, C05); every clause is a
-bounded run-time contract, see contracts/C05_rt.py.
+Deductive part (contracts/C05_vc.py, S rung): one step of the search, `ctc_prefix_search_advance`, against the scalar
+prefix-beam recursion for all contents per small beam shape. The multi-frame search `CTCPrefixSearch.forward` (state
+threading, fusion, valid masks) is decided by bounded run-time contracts only, see contracts/C05_rt.py.
 """
-from contracts import C05_rt
+from contracts import C05_rt, C05_vc
+from vf.pyvc import api
 
 CHECKERS = dict(C05_rt.CHECKERS)
 
 
 def run(ctx):
+    api.run_vcs(ctx, C05_vc.vcs(ctx), {"C05.S.advance_step": "real ctc_prefix_search_advance source: every output slot is a candidate of the prefix-beam recursion with exactly its non-blank / blank masses (extension, keep, merge of an extension into an identical prefix), tokens / length / last token; distinct, best-first, optimal; new prefix relation; fillers; all contents"},
+                bounded="beams of K' <= %d prefixes over V <= %d labels with prefix lengths <= 2, widths below and beyond the number of candidates, one batch element" % ((2, 2) if ctx.quick else (3, 3)))
     C05_rt.run_bounded(ctx)
